@@ -19,6 +19,8 @@ import (
 	"os"
 	"strings"
 
+	"github.com/tuneinsight/lattigo/v6/schemes/ckks"
+
 	"verif/harness/eng"
 )
 
@@ -167,8 +169,13 @@ func (s *session) drawInputs(r *eng.Rand, idx, n int) []input {
 				in.Scale = eng.Pick(r, "default", "pow2low", "pow2max")
 			}
 		}
+		if in.Level > 0 && !iter && s.res.PrecisionMode() == ckks.PREC64 && r.N(6) == 0 {
+			in.Scale = "non-pow2"
+		}
 		in.Copy = r.Bool()
 		switch {
+		case s.ci && in.Batch <= 2 && r.N(3) == 0:
+			in.API = "EvaluateConjugateInvariant"
 		case in.Batch > 1:
 			in.API = "BootstrapMany"
 		case evalOK && in.LogSlots == s.btp.LogMaxSlots() && r.Bool():
